@@ -163,6 +163,11 @@ func (h *handler1) run(ctx context.Context, snConn net.Conn) {
 	h.log.Debug("Handler starts.")
 	defer h.log.Debug("Handler quits.")
 
+	// All the goroutines of the handler must quit when the handler quits,
+	// whatever the reason is.
+	ctx, cancel := context.WithCancel(ctx)
+	defer cancel()
+
 	var groupCtx context.Context
 	h.group, groupCtx = errgroup.WithContext(ctx)
 
